@@ -222,6 +222,10 @@ fn find_block(bdl: &str, kind: Kind, name: &str) -> Option<(usize, usize, usize)
 
 /// the BDL text with attribute `attr` of block `"name" = KIND` set to the quoted value (added when absent)
 fn set_attr(bdl: &str, kind: &str, name: &str, attr: &str, value: &str) -> Option<String> {
+    set_attr_raw(bdl, kind, name, attr, &format!("\"{}\"", value))
+}
+/// the same with the value written as given (numbers, bare words)
+fn set_attr_raw(bdl: &str, kind: &str, name: &str, attr: &str, value: &str) -> Option<String> {
     let mut out = String::with_capacity(bdl.len() + 64);
     let mut inside = false;
     let mut done = false;
@@ -238,11 +242,11 @@ fn set_attr(bdl: &str, kind: &str, name: &str, attr: &str, value: &str) -> Optio
         } else if inside {
             let is_attr = t.strip_prefix(attr).map_or(false, |r| r.trim_start().starts_with('='));
             if is_attr {
-                out.push_str(&format!("   {} = \"{}\"\n", attr, value));
+                out.push_str(&format!("   {} = {}\n", attr, value));
                 seen = true;
             } else if t == ".." {
                 if !seen {
-                    out.push_str(&format!("   {} = \"{}\"\n", attr, value));
+                    out.push_str(&format!("   {} = {}\n", attr, value));
                 }
                 out.push_str(line);
                 inside = false;
@@ -587,6 +591,18 @@ pub fn run(a: &Args) -> Batch {
                 if let Some(t) = set_attr(&bdl, "WINDOW", &w.0, "GAP", &g.0) {
                     edits.push((format!("window {}: GAP -> {}", w.0, g.0), t));
                 }
+            }
+        }
+        // shading devices of a window (two equal fins and an overhang): still a valid project; the shades made for
+        // them must all have ids of their own
+        for w in b.wins.iter().take(nsp) {
+            let mut t = Some(bdl.clone());
+            for (k, v) in [("LEFT-FIN-A", "0.1"), ("LEFT-FIN-B", "0"), ("LEFT-FIN-H", "1.2"), ("LEFT-FIN-D", "0.5"), ("RIGHT-FIN-A", "0.1"), ("RIGHT-FIN-B", "0"),
+                           ("RIGHT-FIN-H", "1.2"), ("RIGHT-FIN-D", "0.5"), ("OVERHANG-A", "0.1"), ("OVERHANG-B", "0.1"), ("OVERHANG-W", "1.5"), ("OVERHANG-D", "0.5"), ("OVERHANG-ANGLE", "90")] {
+                t = t.and_then(|x| set_attr_raw(&x, "WINDOW", &w.0, k, v));
+            }
+            if let Some(t) = t {
+                edits.push((format!("window {}: two equal fins and an overhang", w.0), t));
             }
         }
         for (what, text) in edits {
